@@ -142,7 +142,19 @@ func extractSecure(p *pkgs, f *facts) {
 	} else {
 		f.miss = append(f.miss, "SecureConfig.Check")
 	}
-	f.lean = append(f.lean, fmt.Sprintf("def secureCheck : Secure.CheckParams := ⟨%s, 0⟩", leanBool(whole)))
+	// the `if` of Start that holds the Check call has the condition `c.config.SecureConfig != nil` and nothing else
+	everyStart := false
+	if start != nil && start.Body != nil {
+		for _, st := range start.Body.List {
+			is, ok := st.(*ast.IfStmt)
+			if !ok || !strings.Contains(nodeCalls(is), "SecureConfig.Check(") {
+				continue
+			}
+			everyStart = is.Init == nil && exprString(is.Cond) == "c.config.SecureConfig!=nil"
+		}
+	}
+	detail["checkGuardIsConfigOnly"] = everyStart
+	f.lean = append(f.lean, fmt.Sprintf("def secureCheck : Secure.CheckParams := ⟨%s, 0, %s⟩", leanBool(whole), leanBool(everyStart)))
 	detail["checkHashesWholeFile"] = whole
 	f.lean = append(f.lean, fmt.Sprintf("def secure : Secure.Params := ⟨%s, %s, %s, %s, %s⟩",
 		leanBool(reattachGuard), leanBool(checkBeforeLaunch), leanBool(errReturns), leanBool(mismatchReturns), leanBool(checksCmdPath)))
